@@ -6,7 +6,7 @@ from harness import core
 from harness.core import cN, cZ, cnat, clist, copt, cbool
 
 HEADER = ('From Coq Require Import List ZArith NArith.\n'
-          'From PC Require Import Base.Outcome Base.Mat Model.Skin Check.C19.\n'
+          'From PC Require Import Base.Atoms Base.Outcome Base.Xml Base.Mat Model.Skin Model.SkinXml Check.C19.\n'
           'Import ListNotations.\nOpen Scope Z_scope.\n'
           'Definition n (z : Z) : nat := Z.to_nat z.\n'
           'Definition a (z : Z) : N := Z.to_N z.\n')
@@ -17,6 +17,11 @@ FAULTS = ['oob-joint', 'oob-weight', 'neg-joint', 'neg-weight', 'short', 'long',
 # reference-level faults (outside the property's list): (name, exception code the loader documents)
 # 1 DaeIncompleteError, 2 DaeBrokenRefError, 3 DaeMalformedError
 REF_FAULTS_SKIN = ['ref-missing', 'ref-wrong-kind', 'few-sources', 'one-joints-input', 'geom-missing']
+# faults that only exist at the XML level: name -> documented exception code
+XML_FAULTS_SKIN = {'no-hash': 2, 'no-source-attr': 3, 'no-vertex-weights': 1, 'no-v': 1, 'no-vcount': 1,
+                   'no-offset': 3, 'bad-offset': 3, 'word-in-v': 3, 'float-in-vcount': 3, 'no-params': 1,
+                   'no-array': 1, 'blank-bind-shape': 3}
+XML_FAULTS_MORPH = {'no-hash-base': 2, 'no-base-attr': 3, 'no-hash-input': 2}
 REF_FAULTS_MORPH = ['base-missing', 'bad-method', 'input-missing-source', 'target-not-geometry',
                     'targets-name-array', 'one-input']
 IDENT = [1, 0, 0, 0, 0, 1, 0, 0, 0, 0, 1, 0, 0, 0, 0, 1]
@@ -113,9 +118,15 @@ def gen_skin(rng, fault=None):
     case = {'scene': scene, 'paths': scene_paths(scene), 'kind': 'skin', 'geoms': geoms, 'source_geom': rng.choice(geoms)['id'], 'bind_shape': bind,
             'sources': sources, 'joints_inputs': joints_inputs, 'vw_inputs': vw_inputs, 'vcount': vcount, 'v': v,
             'nodes': nodes, 'fault': None, 'empty_style': rng.choice(['empty', 'blank', 'selfclose']),
-            'vw_order': rng.sample(range(3), 3)}
+            'vw_order': rng.sample(range(3), 3), 'decoys': rng.random() < 0.3}
     exp = {'outcome': 'ok', 'nind': nind}
-    if fault in REF_FAULTS_SKIN:
+    if fault in XML_FAULTS_SKIN:
+        if fault == 'blank-bind-shape' and bind is None:
+            return gen_skin(rng, fault)
+        case['fault'] = fault
+        case['xml_fault'] = [fault, rng.randrange(1000)]
+        exp = {'outcome': 'ref-error', 'code': XML_FAULTS_SKIN[fault], 'why': fault}
+    elif fault in REF_FAULTS_SKIN:
         code, why = apply_ref_fault_skin(rng, case, fault, separate)
         case['fault'] = fault
         exp = {'outcome': 'ref-error', 'code': code, 'why': why}
@@ -277,7 +288,11 @@ def gen_morph(rng, fault=None):
     exp = {'outcome': 'ok', 'pairs': [[t, w / WDEN] for t, w in zip(targets, weights)]}
     ts = next(s for s in sources if s['id'] == 'targets-src')
     ms = next(s for s in sources if s['id'] == 'mweights-src')
-    if fault in REF_FAULTS_MORPH:
+    if fault in XML_FAULTS_MORPH:
+        case['fault'] = fault
+        case['xml_fault'] = [fault, rng.randrange(1000)]
+        exp = {'outcome': 'ref-error', 'code': XML_FAULTS_MORPH[fault], 'why': fault}
+    elif fault in REF_FAULTS_MORPH:
         case['fault'] = fault
         if fault == 'base-missing':
             case['base'] = 'no-such-geometry'
@@ -327,7 +342,7 @@ def num(x, den=1):
     return repr(x / den)
 
 
-def source_xml(rng, s):
+def source_xml(rng, s, xf=None):
     sid = s['id']
     vals = s['values']
     if s['type'] == 'float':
@@ -338,9 +353,14 @@ def source_xml(rng, s):
     else:
         arr = '<Name_array id="%s-array" count="%d">%s</Name_array>' % (sid, len(vals), join_tokens(rng, vals))
     stride = s.get('stride', 1)
+    param = '<param name="%s" type="%s"/>' % (s['param'], s['ptype'])
+    if xf == 'no-params':
+        param = ''
+    if xf == 'no-array':
+        arr = ''
     return ('<source id="%s">%s<technique_common><accessor source="#%s-array" count="%d" stride="%d">'
-            '<param name="%s" type="%s"/></accessor></technique_common></source>'
-            % (sid, arr, sid, len(vals) // stride, stride, s['param'], s['ptype']))
+            '%s</accessor></technique_common></source>'
+            % (sid, arr, sid, len(vals) // stride, stride, param))
 
 
 def geom_xml(g):
@@ -365,19 +385,61 @@ def text_el(tag, text, style):
 
 
 def doc_xml(rng, case):
-    srcs = ''.join(source_xml(rng, s) for s in case['sources'])
+    xf, xk = case.get('xml_fault') or (None, 0)
+    DEC = ' xmlns:x="urn:decoy"'
+    srcs = ''.join(source_xml(rng, s, xf if (xf in ('no-params', 'no-array') and i == xk % len(case['sources'])) else None)
+                   for i, s in enumerate(case['sources']))
+
+    def inp(k, sem, src, off=None, fault_at=None):
+        ref = ' source="#%s"' % src
+        o = '' if off is None else ' offset="%d"' % off
+        if fault_at == k:
+            if xf in ('no-hash', 'no-hash-input'):
+                ref = ' source="%s"' % src
+            elif xf == 'no-source-attr':
+                ref = ''
+            elif xf == 'no-offset':
+                o = ''
+            elif xf == 'bad-offset':
+                o = ' offset="first"'
+        return '<input semantic="%s"%s%s/>' % (sem, ref, o)
+
     if case['kind'] == 'skin':
         bind = '' if case['bind_shape'] is None else '<bind_shape_matrix>%s</bind_shape_matrix>' % join_tokens(rng, case['bind_shape'])
-        joints = '<joints>%s</joints>' % ''.join('<input semantic="%s" source="#%s"/>' % (s, i) for s, i in case['joints_inputs'])
-        parts = [''.join('<input semantic="%s" source="#%s" offset="%d"/>' % (s, i, o) for s, i, o in case['vw_inputs']),
-                 text_el('vcount', join_tokens(rng, case['vcount']), case['empty_style']),
-                 text_el('v', join_tokens(rng, case['v']), case['empty_style'])]
-        vw = '<vertex_weights count="%d">%s</vertex_weights>' % (len(case['vcount']), ''.join(parts[i] for i in case['vw_order']))
-        body = '<skin source="#%s">%s%s%s%s</skin>' % (case['source_geom'], bind, srcs, joints, vw)
+        if xf == 'blank-bind-shape':
+            bind = '<bind_shape_matrix/>'
+        nj, nv = len(case['joints_inputs']), len(case['vw_inputs'])
+        # which input carries an input-level fault: a <joints> one or a <vertex_weights> one
+        in_joints = xf in ('no-hash', 'no-source-attr') and xk % 2 == 0
+        jf = (xk // 2) % nj if in_joints else None
+        vf = (xk // 2) % nv if (xf in ('no-hash', 'no-source-attr') and not in_joints) or xf in ('no-offset', 'bad-offset') else None
+        decoy_j = '<x:input%s semantic="JOINT" source="#mats-src"/>' % DEC if case.get('decoys') else ''
+        joints = '<joints>%s%s</joints>' % (decoy_j, ''.join(inp(k, s_, i, None, jf) for k, (s_, i) in enumerate(case['joints_inputs'])))
+        vtoks = list(case['v'])
+        if xf == 'word-in-v':
+            vtoks.insert(xk % (len(vtoks) + 1), 'x')
+        vctoks = list(case['vcount'])
+        if xf == 'float-in-vcount':
+            vctoks.insert(xk % (len(vctoks) + 1), '1.0')
+        parts = [''.join(inp(k, s_, i, o, vf) for k, (s_, i, o) in enumerate(case['vw_inputs'])),
+                 '' if xf == 'no-vcount' else text_el('vcount', join_tokens(rng, vctoks), case['empty_style']),
+                 '' if xf == 'no-v' else text_el('v', join_tokens(rng, vtoks), case['empty_style'])]
+        decoy_v = '<x:v%s>99 99 99</x:v><x:vcount%s>7</x:vcount>' % (DEC, DEC) if case.get('decoys') else ''
+        vw = '<vertex_weights count="%d">%s%s</vertex_weights>' % (len(case['vcount']), decoy_v, ''.join(parts[i] for i in case['vw_order']))
+        if xf == 'no-vertex-weights':
+            vw = ''
+        decoy_s = '<x:source%s id="joints-src"/><x:bind_shape_matrix%s>0</x:bind_shape_matrix>' % (DEC, DEC) if case.get('decoys') else ''
+        body = '<skin source="#%s">%s%s%s%s%s</skin>' % (case['source_geom'], decoy_s, bind, srcs, joints, vw)
     else:
         method = '' if case['method'] is None else ' method="%s"' % case['method']
-        targets = '<targets>%s</targets>' % ''.join('<input semantic="%s" source="#%s"/>' % (s, i) for s, i in case['targets_inputs'])
-        body = '<morph source="#%s"%s>%s%s</morph>' % (case['base'], method, srcs, targets)
+        mf = xk % max(1, len(case['targets_inputs'])) if xf == 'no-hash-input' else None
+        targets = '<targets>%s</targets>' % ''.join(inp(k, s_, i, None, mf) for k, (s_, i) in enumerate(case['targets_inputs']))
+        base = ' source="#%s"' % case['base']
+        if xf == 'no-hash-base':
+            base = ' source="%s"' % case['base']
+        elif xf == 'no-base-attr':
+            base = ''
+        body = '<morph%s%s>%s%s</morph>' % (base, method, srcs, targets)
     counter = [0]
 
     def chain(mats, inner):
@@ -420,13 +482,32 @@ SEM = {'JOINT': 'SJoint', 'INV_BIND_MATRIX': 'SInvBind', 'WEIGHT': 'SWeight', 'M
 
 
 class Interner:
+    """atoms of the shared vocabulary (harness/enc/atoms.py); other strings from 1000 upward"""
+
     def __init__(self):
-        self.tab = {}
+        from harness.enc import xml2coq
+        self.enc = xml2coq.Enc()
 
     def __call__(self, s):
-        if s not in self.tab:
-            self.tab[s] = 1000 + len(self.tab)
-        return 'a %d' % self.tab[s]
+        return 'a %d' % self.enc.I.atom(s)
+
+
+def xml_case(I, case, code, o):
+    """the <controller> element read from the document bytes with xml.etree -> XmlCase term"""
+    import xml.etree.ElementTree as ET
+    root = ET.fromstring(case['xml'].encode('utf-8'))
+    el = None
+    for c in root.iter('{%s}controller' % NS):
+        if c.get('id') == case.get('cid', 'ctrl'):
+            el = c
+    if el is None:
+        return None
+    term = I.enc.element(el)
+    nums = [None] * len(I.enc.nums)
+    for tok, k in I.enc.nums.items():
+        nums[k] = int(round(float(tok) * WDEN))
+    return '(XmlCase (%s) %s %s %s (n %d) (%s))' % (
+        I(NS), zl(nums), clist([I(g['id']) for g in case['geoms']]), term, code, o)
 
 
 def zl(xs):
@@ -465,7 +546,11 @@ def encode(case, obs):
                 clist(['(%s, %s)' % (I(nm), zl(m)) for nm, m in view['joint_matrices']]), zl(view['bind_shape']))
         else:
             o = 'None'
-        out.append('(SkinCase %s (n %d) (%s))' % (d, code, o))
+        if not case.get('xml_fault'):
+            out.append('(SkinCase %s (n %d) (%s))' % (d, code, o))
+        xc = xml_case(I, case, code, o.replace('Some (mk_skin_view', 'Some (LSkin (mk_skin_view') + (')' if o != 'None' else ''))
+        if xc:
+            out.append(xc)
         if obs.get('bound') is not None and code == 0 and view is not None and view['bind_shape'] is not None:
             # obs['bound'][r] = for traversal r, one bound matrix per path (paired with the paths in canonical order)
             paths = case.get('paths') or [case['nodes']]
@@ -485,7 +570,15 @@ def encode(case, obs):
             o = 'Some (%s, %s)' % (I(view['base']), clist(['(%s, %d)' % (I(t), int(w)) for (t, _), w in zip(view['pairs'], ws_)]))
         else:
             o = 'None'
-        out.append('(MorphCase %s (n %d) (%s))' % (d, code, o))
+        if not case.get('xml_fault'):
+            out.append('(MorphCase %s (n %d) (%s))' % (d, code, o))
+        if o == 'None':
+            xo = 'None'
+        else:
+            xo = 'Some (LMorph (%s) %s)' % (I(view['base']), clist(['(%s, %d)' % (I(t), int(w)) for (t, _), w in zip(view['pairs'], ws_)]))
+        xc = xml_case(I, case, code, xo)
+        if xc:
+            out.append(xc)
     return out
 
 
@@ -525,11 +618,13 @@ def gen_batch(rng, nskin, nmorph):
     cases = []
     for _ in range(nskin):
         r = rng.random()
-        fault = rng.choice(FAULTS) if r < 0.4 else rng.choice(REF_FAULTS_SKIN) if r < 0.5 else None
+        fault = (rng.choice(FAULTS) if r < 0.38 else rng.choice(REF_FAULTS_SKIN) if r < 0.46
+                 else rng.choice(sorted(XML_FAULTS_SKIN)) if r < 0.56 else None)
         cases.append(gen_skin(rng, fault))
     for _ in range(nmorph):
         r = rng.random()
-        cases.append(gen_morph(rng, 'mismatch' if r < 0.25 else rng.choice(REF_FAULTS_MORPH) if r < 0.45 else None))
+        cases.append(gen_morph(rng, 'mismatch' if r < 0.25 else rng.choice(REF_FAULTS_MORPH) if r < 0.4
+                               else rng.choice(sorted(XML_FAULTS_MORPH)) if r < 0.5 else None))
     return cases
 
 
